@@ -106,9 +106,19 @@ func durableWALRids2(walDir string) (map[int64]bool, int) {
 	files, _ := filepath.Glob(filepath.Join(walDir, "*.wal"))
 	sort.Strings(files)
 	for _, f := range files {
+		corrupt += walFileRids(f, out)
+	}
+	return out, corrupt
+}
+
+// walFileRids adds the row ids of every intact entry of one WAL file to out
+// and returns the number of completely framed entries with a bad checksum.
+func walFileRids(f string, out map[int64]bool) int {
+	corrupt := 0
+	{
 		b, err := os.ReadFile(f)
 		if err != nil || len(b) < 7 || string(b[:4]) != "ARCW" {
-			continue
+			return 0
 		}
 		off := 7
 		for off+16 <= len(b) {
@@ -126,7 +136,7 @@ func durableWALRids2(walDir string) (map[int64]bool, int) {
 			collectRids(payload, out)
 		}
 	}
-	return out, corrupt
+	return corrupt
 }
 
 func collectRids(payload []byte, out map[int64]bool) {
@@ -226,6 +236,7 @@ type c05exec struct {
 	crashes       int
 	lostAt2       []int64 // rids durable at crash1 but in neither WAL nor parquet at a later crash
 	corruptAtRest int     // completely framed WAL entries with a bad checksum at the first crash
+	walMon        *walDeleteMonitor
 }
 
 func armCrash(n *node, cs CrashSpec, baseSteps, baseFS int64, lenSteps, lenFS int64) {
@@ -272,6 +283,9 @@ func execC05(p *C05Plan, cfg simrt.Config, root string, crash bool, twin *c05exe
 	ex.res = simrt.Run(cfg, func() {
 		simrt.SetPathRoot(root)
 		n = newNode("n1", root, p.Knobs)
+		if crash {
+			ex.walMon = n.watchWALDeletes()
+		}
 		if crash && p.Crash1.Mode != "end" && p.Crash1.Mode != "none" {
 			armCrash(n, p.Crash1, 0, 0, twin.opsSteps, twin.opsFS)
 		}
@@ -399,6 +413,12 @@ func runC05(planAny any, cfg simrt.Config) *simkit.Outcome {
 	}
 	if ex.corruptAtRest > 0 {
 		out.Violate("C05.acked-entry-corrupt-in-wal", "%d WAL entries are completely framed in the file at the crash instant but fail their checksum (no disk fault was injected into their bytes): the writer persisted something else than the acknowledged payload, so the rows cannot be recovered", ex.corruptAtRest)
+	}
+	if ex.walMon != nil && ex.walMon.Early > 0 {
+		out.Violate("C05.wal-file-removed-by-recovery-before-its-rows-were-stored", "%s", ex.walMon.EarlyMsg)
+	}
+	if ex.walMon != nil {
+		out.Stats["probe.recovery_deletes_checked"] += int64(ex.walMon.Checked)
 	}
 	// twin rows by rid
 	type trow struct {
